@@ -13,7 +13,7 @@ import (
 )
 
 var c08Paths = []string{"/p", "/a%20b", "/%C3%BCn%C3%AF", "/a/../b", "//dbl", "/" + strings.Repeat("long/", 60) + "x", "/p/", "/semi;colon", "/pct%2Fslash", "/dot/./seg", "/q%3Fmark", "/plus+sign", "/"}
-var c08Queries = []string{"", "a=1&b=2", "x=%23frag", "q=a+b", "k=v&k=w", "e=", "%zz", "redir=/elsewhere", "a=b=c&&", "u=%C3%BC", strings.Repeat("k=v&", 200) + "z=1"}
+var c08Queries = []string{"", "next=https://app.example.com/cb", "file=a/../b", "p=a/./b", "dir=/x/", "u=//host/p", "a=1&b=2", "x=%23frag", "q=a+b", "k=v&k=w", "e=", "%zz", "redir=/elsewhere", "a=b=c&&", "u=%C3%BC", strings.Repeat("k=v&", 200) + "z=1"}
 
 func c08Unit(c *RunCtx, unit int) {
 	// unit encodes (mount, mode); every unit enumerates the remaining 864 cells completely
